@@ -18,7 +18,7 @@ namespace Odak
 open Gen
 variable {T R : Type} [DecidableEq R]
 
-theorem gen_propagatorInitDistancesG_eq (E : PropOps T R) (s : PropagatorSelf T R) (h : Heap T) (ds : Option Nat) {vd ilo : R} {nd : Int}
+theorem gen_propagatorInitDistancesG_eq (E : PropOps T R) (s : PropagatorAttrs T R) (h : Heap T) (ds : Option Nat) {vd ilo : R} {nd : Int}
     (h1 : s.volume_depth = some vd) (h2 : s.number_of_depth_layers = some nd) (h3 : s.image_location_offset = some ilo) :
     propagatorInitDistancesG E s h ds = match ds with
       | none => some ({ s with distances := some h.size },
@@ -29,7 +29,7 @@ theorem gen_propagatorInitDistancesG_eq (E : PropOps T R) (s : PropagatorSelf T 
   | none => simp [propagatorInitDistancesG, h1, h2, h3]
   | some d => cases hg : h.get d <;> simp [propagatorInitDistancesG, h1, h2, h3, hg]
 
-theorem gen_propagatorInitKernelsG_eq (E : PropOps T R) (s : PropagatorSelf T R) (h : Heap T) {nd nch rf : Int} {res : List Int}
+theorem gen_propagatorInitKernelsG_eq (E : PropOps T R) (s : PropagatorAttrs T R) (h : Heap T) {nd nch rf : Int} {res : List Int}
     (h1 : s.number_of_depth_layers = some nd) (h2 : s.number_of_channels = some nch) (h3 : s.resolution = some res)
     (h4 : s.resolution_factor = some rf) :
     propagatorInitKernelsG E s h = (res[0]?).bind fun r0 => (res[1]?).bind fun r1 =>
@@ -38,20 +38,20 @@ theorem gen_propagatorInitKernelsG_eq (E : PropOps T R) (s : PropagatorSelf T R)
         ["generated_kernels", "kernels"]) := by
   cases e0 : res[0]? <;> cases e1 : res[1]? <;> simp [propagatorInitKernelsG, h1, h2, h3, h4, e0, e1]
 
-theorem gen_propagatorInitChannelPowerG_eq (E : PropOps T R) (s : PropagatorSelf T R) (h : Heap T) (p : Option Nat) {nf nch : Int}
+theorem gen_propagatorInitChannelPowerG_eq (E : PropOps T R) (s : PropagatorAttrs T R) (h : Heap T) (p : Option Nat) {nf nch : Int}
     (h1 : s.number_of_frames = some nf) (h2 : s.number_of_channels = some nch) :
     propagatorInitChannelPowerG E s h p = match p with
       | none => some ({ s with channel_power := some h.size }, (h.alloc (E.eye nf nch)).1, (), ["channel_power", "channel_power"])
       | some l => some ({ s with channel_power := some l }, h, (), ["channel_power"]) := by
   cases p <;> simp [propagatorInitChannelPowerG, h1, h2]
 
-theorem gen_propagatorInitPhaseScaleG_eq (E : PropOps T R) (s : PropagatorSelf T R) (h : Heap T) :
+theorem gen_propagatorInitPhaseScaleG_eq (E : PropOps T R) (s : PropagatorAttrs T R) (h : Heap T) :
     propagatorInitPhaseScaleG E s h = some ({ s with phase_scale := some (E.tensorOfList [E.lit "1.0", E.lit "1.0", E.lit "1.0"]) }, h, (),
       ["phase_scale"]) := by
   simp [propagatorInitPhaseScaleG]
 
 /-- `set_aperture` on any object whose `resolution` / `resolution_factor` are set -/
-theorem gen_propagatorSetApertureG_eq' (E : PropOps T R) (s : PropagatorSelf T R) (h : Heap T) (ap size : Option T) {res : List Int} {rf : Int}
+theorem gen_propagatorSetApertureG_eq' (E : PropOps T R) (s : PropagatorAttrs T R) (h : Heap T) (ap size : Option T) {res : List Int} {rf : Int}
     (h1 : s.resolution = some res) (h2 : s.resolution_factor = some rf) :
     propagatorSetApertureG E s h ap size = (pApertureValue E res rf ap size).map fun v =>
       ({ s with aperture := some h.size }, (h.alloc v).1, (), ["aperture"]) := by
@@ -89,7 +89,7 @@ theorem gen_propagatorInitG_eq (E : PropOps T R) (a : PropArgs T R) (h : Heap T)
   | none => cases ds <;> simp [h0, h1, pInitDistances] at hi <;> (try cases hg : h.get _ <;> simp [hg] at hi)
   | some r1 =>
   simp only [h0, h1, Option.bind_some] at hi
-  have main : ∀ (h1' : Heap T) (dl : Nat) (nd' : Int) (log1 : List String) (S1 : PropagatorSelf T R),
+  have main : ∀ (h1' : Heap T) (dl : Nat) (nd' : Int) (log1 : List String) (S1 : PropagatorAttrs T R),
       S1 = { device := some (), pixel_pitch := some pp, wavelengths := some wl, resolution := some res,
               propagation_type := some pt, resolution_factor := some rf', number_of_frames := some nf,
               number_of_depth_layers := some nd', number_of_channels := some (wl.length : Int), volume_depth := some vd,
@@ -172,7 +172,7 @@ theorem gen_propagatorInitG_eq (E : PropOps T R) (a : PropArgs T R) (h : Heap T)
   · have e : rf = rf' := by rw [← hrf]; simp [hpt]
     subst e
     subst hpt
-    simp only [pInitCall, propagatorInitG, Option.bind_eq_bind, Option.bind_some, Option.pure_def, PropagatorSelf.empty, ne_eq,
+    simp only [pInitCall, propagatorInitG, Option.bind_eq_bind, Option.bind_some, Option.pure_def, PropagatorAttrs.empty, ne_eq,
       not_true_eq_false, decide_false, Bool.false_eq_true, if_false]
     rw [gen_propagatorInitDistancesG_eq E _ h ds (vd := vd) (nd := nd) (ilo := ilo) rfl rfl rfl]
     cases ds with
@@ -193,7 +193,7 @@ theorem gen_propagatorInitG_eq (E : PropOps T R) (a : PropArgs T R) (h : Heap T)
         simp [pInitLog]
   · have e : 1 = rf' := by rw [← hrf]; simp [hpt]
     subst e
-    simp only [pInitCall, propagatorInitG, Option.bind_eq_bind, Option.bind_some, Option.pure_def, PropagatorSelf.empty, hpt, ne_eq,
+    simp only [pInitCall, propagatorInitG, Option.bind_eq_bind, Option.bind_some, Option.pure_def, PropagatorAttrs.empty, hpt, ne_eq,
       not_false_eq_true, decide_true, if_true]
     rw [gen_propagatorInitDistancesG_eq E _ h ds (vd := vd) (nd := nd) (ilo := ilo) rfl rfl rfl]
     cases ds with
